@@ -81,7 +81,7 @@ structure Inv (t : T) : Prop where
 theorem inv_init : Inv T.init := ⟨by decide, by decide, fun i h => (by cases h), fun h => (by cases h)⟩
 
 theorem inv_step (t : T) (s : Step) (h : Inv t) : Inv (step true t s) := by
-  obtain ⟨app, cons, gack, infl, verdict, stopped, late⟩ := t
+  obtain ⟨app, cons, gack, infl, verdict, stopped, late, hs⟩ := t
   obtain ⟨h1, h2, h3, h4⟩ := h
   simp only at h1 h2 h3 h4
   cases s
@@ -95,11 +95,23 @@ theorem inv_step (t : T) (s : Step) (h : Inv t) : Inv (step true t s) := by
     simp only [step]
     split
     · rename_i hc
-      refine ⟨by show gack ≤ cons + 1; omega, by show cons + 1 ≤ app; omega, ?_, h4⟩
-      intro i hi
-      simp only [Option.some.injEq] at hi
-      subst hi
-      exact ⟨rfl, by show gack < cons + 1; omega⟩
+      cases hs
+      · simp only [Bool.false_eq_true, if_false]
+        split
+        · refine ⟨by show gack ≤ cons + 1; omega, by show cons + 1 ≤ app; omega, ?_, h4⟩
+          intro i hi
+          simp only [Option.some.injEq] at hi
+          subst hi
+          exact ⟨rfl, by show gack < cons + 1; omega⟩
+        · exact ⟨h1, h2, fun i hi => (by rw [hc.2] at hi; cases hi), h4⟩
+      · simp only [if_true]
+        split
+        · refine ⟨by show gack ≤ gack + 1; omega, by show gack + 1 ≤ app; omega, ?_, h4⟩
+          intro i hi
+          simp only [Option.some.injEq] at hi
+          subst hi
+          exact ⟨rfl, by show gack < gack + 1; omega⟩
+        · exact ⟨by show gack ≤ gack; omega, by show gack ≤ app; omega, fun i hi => (by rw [hc.2] at hi; cases hi), h4⟩
     · exact ⟨h1, h2, h3, h4⟩
   · -- ack
     simp only [step]
@@ -116,7 +128,10 @@ theorem inv_step (t : T) (s : Step) (h : Inv t) : Inv (step true t s) := by
         omega
       · exact ⟨h1, h2, h3, h4⟩
   · -- lose
-    exact ⟨h1, h2, fun i hi => (by cases hi), h4⟩
+    simp only [step]
+    cases infl with
+    | none => exact ⟨h1, h2, h3, h4⟩
+    | some i => exact ⟨h1, h2, fun i hi => (by cases hi), h4⟩
   · -- test
     simp only [step]
     split
